@@ -174,6 +174,10 @@ def run_C19(ctx):
              "Model/CallTracer.v (ct_run/ct_result, ctf_run/ctf_result incl. flatFromNested) vs the real callTracer / flatCallTracer from tracers.DefaultDirectory fed the same callback stream: "
              "enumerated shapes (0..3 Aspects per join point x 0..2 calls per Aspect x body width 0..2 x Aspects on inner calls), random trees (depth <= 3), malformed streams; whole GetResult JSON compared field by field",
              nontrivial=lambda c: c.get("aspects", 0) >= 1 and c.get("stream") != "malformed", has_oracle=True, oracle_prefix="C19")
+    corr_run(ctx, "calltracerlive", ["calltracerlive", "--n", n_cases(ctx, 500, 20000)],
+             "the same model vs the real tracers attached (next to a recording logger) to REAL executions: generated scenarios with nested calls of every kind, creations and "
+             "Aspects bound to join points that succeed or fail in every way; the recorded callbacks are the model's input, GetResult of callTracer / flatCallTracer the observation",
+             nontrivial=lambda c: c.get("aspects", 0) >= 1, has_oracle=True, oracle_prefix="C19")
 
 
 def run_C17(ctx):
